@@ -297,15 +297,50 @@ func compareStr(a, op, b string) bool {
 // Uses the classic two-pointer backtracking algorithm: O(n*m) worst case, with no
 // exponential blow-up on adversarial patterns (unlike a naive per-'%' recursion).
 func matchesLikePattern(text, pattern string) bool {
+	if !isASCIIString(text) || !isASCIIString(pattern) {
+		return matchesLikePatternRunes([]rune(text), []rune(pattern))
+	}
 	ti, pi := 0, 0
 	starIdx, matchIdx := -1, 0 // last '%' index in pattern; text index when we took it
 	for ti < len(text) {
-		if pi < len(pattern) && (pattern[pi] == '_' || pattern[pi] == text[ti]) {
-			ti++
-			pi++
-		} else if pi < len(pattern) && pattern[pi] == '%' {
+		// '%' must be tested before the literal comparison: a '%' in the text would
+		// otherwise consume the pattern's wildcard as a literal character.
+		if pi < len(pattern) && pattern[pi] == '%' {
 			starIdx = pi
 			matchIdx = ti
+			pi++
+		} else if pi < len(pattern) && (pattern[pi] == '_' || pattern[pi] == text[ti]) {
+			ti++
+			pi++
+		} else if starIdx != -1 {
+			// backtrack: let the last '%' consume one more character
+			pi = starIdx + 1
+			matchIdx++
+			ti = matchIdx
+		} else {
+			return false
+		}
+	}
+	for pi < len(pattern) && pattern[pi] == '%' {
+		pi++
+	}
+	return pi == len(pattern)
+}
+
+// matchesLikePatternRunes is the same algorithm over characters (runes) for non-ASCII input, so that
+// _ stands for one character rather than one byte.
+func matchesLikePatternRunes(text, pattern []rune) bool {
+	ti, pi := 0, 0
+	starIdx, matchIdx := -1, 0 // last '%' index in pattern; text index when we took it
+	for ti < len(text) {
+		// '%' must be tested before the literal comparison: a '%' in the text would
+		// otherwise consume the pattern's wildcard as a literal character.
+		if pi < len(pattern) && pattern[pi] == '%' {
+			starIdx = pi
+			matchIdx = ti
+			pi++
+		} else if pi < len(pattern) && (pattern[pi] == '_' || pattern[pi] == text[ti]) {
+			ti++
 			pi++
 		} else if starIdx != -1 {
 			// backtrack: let the last '%' consume one more character
@@ -335,4 +370,14 @@ func isNilValue(v any) bool {
 		return rv.IsNil()
 	}
 	return false
+}
+
+// isASCIIString reports whether s contains only single-byte characters.
+func isASCIIString(s string) bool {
+	for i := 0; i < len(s); i++ {
+		if s[i] >= 0x80 {
+			return false
+		}
+	}
+	return true
 }
